@@ -34,7 +34,7 @@ EXPLANATION = (
     "observe; R9.7 a scenario option (a name declared by an observation ConfigSchema) travels to the leaf that consults it "
     "only through like-named hops - inheritance blocks `if child.f is None: child.f = parent.f`, child-config stores, "
     "constructor keywords, `self.f = f` - so a hop joining two different declared options is reported; R9.6 also requires the "
-    "store on every path that returns a freshly built observation; R9.8 inside a loop of observe() a local assigned under a "
+    "store on every path that returns a freshly built observation and forbids it on a path that goes on to return the default encoding; R9.8 inside a loop of observe() a local assigned under a "
     "condition is re-initialised in the body before it is read (no value carried over from another iteration); R9.9 = C14's "
     "R14.1 (only scans write the visible health fields) applied here; R9.10 no describe_state implementation stores on self or "
     "mutates one of its attributes (the state handed to observe is computed afresh); R9.11 every store of Folder.visible_health_status "
@@ -664,6 +664,26 @@ def r9_6(ctx: Ctx, om: ObsModel) -> None:
                     ctx.fail("R9.6", key, m.observe_fn.loc(node),
                              f"{m.cls.short}: observe can return a freshly built observation without storing self.{a}: on that path the value "
                              f"remembered for later steps is not refreshed", cfg_path_text(p_))
+                # ... and never on a path that goes on to report the default encoding: the component is absent (or its node is off) there,
+                # the simulator keeps its last-scanned value through a delete/restore, so wiping the memory makes the leaf of the restored
+                # component read the default instead of the visible value until the next scan
+                defrets_ = [x for x in g_.nodes if x.kind == "stmt" and isinstance(x.ast, ast.Return) and x.ast.value is not None
+                            and unparse(x.ast.value) == "self.default_observation"]
+                key2 = ctx.key(m.observe_fn, f"memory self.{a} is left alone on the paths that report the default")
+                w_ = None
+                for sn in [x for x in g_.nodes if x.id in sts]:
+                    w_ = g_.path_avoiding(defrets_, lambda e: False, start=sn) if defrets_ else None
+                    if w_ is not None:
+                        w_ = (sn, w_)
+                        break
+                if w_ is None:
+                    ctx.ok("R9.6", key2, m.observe_fn.loc(node), f"{m.cls.short}: no store of self.{a} reaches `return self.default_observation` "
+                           f"({len(sts)} store(s), {len(defrets_)} default return(s))")
+                else:
+                    ctx.fail("R9.6", key2, m.observe_fn.loc(w_[0].ast),
+                             f"{m.cls.short}: observe overwrites the remembered self.{a} (`{unparse(w_[0].ast)[:70]}`) and then reports the default "
+                             f"encoding: the value shown by the last scan is lost while the component is absent, so after it comes back the leaf "
+                             f"reads the overwritten value instead of the component's visible one", cfg_path_text(w_[1]))
             else:
                 ctx.fail("R9.6", key, m.observe_fn.loc(node),
                          f"{m.cls.short}: self.{a} is initialised in __init__ to {init_val}, is not configuration and is read by observe "
